@@ -28,9 +28,23 @@ var scaleBodies = [][]*Node{
 	{{K: KLit, S: "a", Caseless: true}, {K: KLit, S: "b", Not: true}},
 	{{K: KLoop, Min: 2, Max: 2, Body: &Node{K: KIn, Items: []Item{{Kind: 2, Class: "upper"}, {Kind: 2, Class: "digit"}}}}},
 	{{K: KLoop, Min: 1, Max: 3, Name: "L", Body: &Node{K: KSeq, Kids: []*Node{{K: KCap, S: "k", Body: &Node{K: KClass, Class: "lower"}}, {K: KLit, S: ","}}}}},
+	// loops with minima in the dozens and hundreds
+	{{K: KLoop, Min: 65, Max: 65, Body: &Node{K: KClass, Class: "any"}}},
+	{{K: KLoop, Min: 70, Max: 90, Fewest: true, Body: &Node{K: KClass, Class: "any"}}, {K: KLit, S: "\n"}},
+	{{K: KLit, S: "a"}, {K: KLoop, Min: 100, Max: 130, Body: &Node{K: KIn, Not: true, Items: []Item{{Kind: 0, S: "7"}}}}},
 }
 
 var scalePieces = []string{"ab", "cat", "ca", "a", "b", "c", "A", "B", "x", "0", "1", "22", "345", "7-7", "a1", "k,", "k,j,", " ", " ", "\n", "\n", "ab ", "Ab9", "-", "é"}
+
+// clipForBody: the bodies with minima in the dozens cost a hundred instructions per
+// start position (and the VM copies its stacks at every one): they get the first
+// 900 bytes of the text.
+func clipForBody(bi int, text string) string {
+	if bi >= 12 && len(text) > 900 {
+		return text[:900]
+	}
+	return text
+}
 
 func genScaleText(t *rapid.T) string {
 	n := rapid.IntRange(150, 900).Draw(t, "pieces")
@@ -74,12 +88,12 @@ const vmLimitScale = 3_000_000
 func TestC01Scale(t *testing.T) {
 	seedNote(t)
 	StartWatchdog("C01", 90*time.Second)
-	st := NewStats("C01", "scale", "twelve linear-time bodies (literals, bounded loops, captures and back-references, in / not in, anchors, a named loop) x generated multi-line texts of 0.5..4 kB (hundreds of matches) as find all and replace all; spans and variables vs the reference matcher; non-trivial = >= 50 matches; distinct by (body, text)")
+	st := NewStats("C01", "scale", "fifteen linear-time bodies (three of them with loop minima of 65..100, on the first 900 bytes) (literals, bounded loops, captures and back-references, in / not in, anchors, a named loop) x generated multi-line texts of 0.5..4 kB (hundreds of matches) as find all and replace all; spans and variables vs the reference matcher; non-trivial = >= 50 matches; distinct by (body, text)")
 	defer st.Write()
 	rapid.Check(t, func(t *rapid.T) {
 		bi := rapid.IntRange(0, len(scaleBodies)-1).Draw(t, "body")
 		body := scaleBodies[bi]
-		text := genScaleText(t)
+		text := clipForBody(bi, genScaleText(t))
 		prog := FindAll(body...)
 		if rapid.IntRange(0, 3).Draw(t, "replace") == 0 {
 			prog.Commands[0].Replace = true
@@ -124,24 +138,33 @@ func TestC01Scale(t *testing.T) {
 func TestC03Scale(t *testing.T) {
 	seedNote(t)
 	StartWatchdog("C03", 90*time.Second)
-	st := NewStats("C03", "scale", "the same twelve bodies x multi-line texts of 0.5..4 kB x amount clauses with large numbers (skip <= 300, take <= 200, last <= 150, top <= 300), find and replace; every reported match re-derived from the text (slice, order, numbering, line and column over hundreds of lines, variables are substrings); non-trivial = >= 50 matches reported; distinct by (source, text)")
+	st := NewStats("C03", "scale", "the same fifteen bodies x multi-line texts of 0.5..4 kB (a third of them searched as files of >= 9 kB through RunFiles) x amount clauses with large numbers (skip <= 300, take <= 200, last <= 150, top <= 300), find and replace; every reported match re-derived from the text (slice, order, numbering, line and column over hundreds of lines, variables are substrings); non-trivial = >= 50 matches reported; distinct by (source, text)")
 	defer st.Write()
 	rapid.Check(t, func(t *rapid.T) {
-		body := scaleBodies[rapid.IntRange(0, len(scaleBodies)-1).Draw(t, "body")]
-		text := genScaleText(t)
+		bi := rapid.IntRange(0, len(scaleBodies)-1).Draw(t, "body")
+		body := scaleBodies[bi]
+		text := clipForBody(bi, genScaleText(t))
 		cmd := Command{Amount: genScaleAmount(t), Body: body}
 		if rapid.IntRange(0, 3).Draw(t, "replace") == 0 {
 			cmd.Replace = true
 			cmd.With = []WithItem{{Kind: 0, S: "<"}, {Kind: 1, S: "lineNumber"}, {Kind: 0, S: ":"}, {Kind: 1, S: "columnNumber"}, {Kind: 0, S: ">"}}
 		}
 		src := (&Program{Commands: []Command{cmd}}).Source()
-		c := RunCase{Src: src, Text: text, ASCII: isASCII(text), Limit: vmLimitScale}
+		c := RunCase{Src: src, Text: text, ASCII: isASCII(text), Limit: vmLimitScale, File: rapid.IntRange(0, 2).Draw(t, "asfile") == 0}
+		if c.File {
+			// as a file the text is at least two buffer windows long
+			for len(c.Text) < 9000 {
+				c.Text += "\n" + text
+			}
+			text = c.Text
+			st.Count("searched_as_a_file")
+		}
 		st.Eval()
 		v, err, p := CompileSafe(src)
 		if p != nil || err != nil {
 			t.Fatalf("HARNESS: %s does not compile", src)
 		}
-		res := RunSafe(v, text, vmLimitScale)
+		res := runTextOrFile(v, text, c.File, vmLimitScale)
 		if res.OverBudget {
 			st.Count("discarded_vm_budget")
 			return
@@ -171,11 +194,12 @@ func TestC03Scale(t *testing.T) {
 func TestC04Scale(t *testing.T) {
 	seedNote(t)
 	StartWatchdog("C04", 90*time.Second)
-	st := NewStats("C04", "scale", "the same twelve bodies x multi-line texts of 0.5..4 kB: the match list A of `all` (hundreds of matches) against clauses with s, t, n drawn around 0, |A|/2 and |A| (+-2) for find and replace .. with 'X' matchNumber; compared field by field; non-trivial = |A| >= 50 and a proper non-empty window; distinct by (body, text, clause)")
+	st := NewStats("C04", "scale", "the same fifteen bodies x multi-line texts of 0.5..4 kB: the match list A of `all` (hundreds of matches) against clauses with s, t, n drawn around 0, |A|/2 and |A| (+-2) for find and replace .. with 'X' matchNumber; compared field by field; non-trivial = |A| >= 50 and a proper non-empty window; distinct by (body, text, clause)")
 	defer st.Write()
 	rapid.Check(t, func(t *rapid.T) {
-		body := scaleBodies[rapid.IntRange(0, len(scaleBodies)-1).Draw(t, "body")]
-		text := genScaleText(t)
+		bi := rapid.IntRange(0, len(scaleBodies)-1).Draw(t, "body")
+		body := scaleBodies[bi]
+		text := clipForBody(bi, genScaleText(t))
 		c := WindowCase{Body: strings.Join(bodyTokens(body), " "), Text: text, Replace: rapid.IntRange(0, 2).Draw(t, "replace") == 0}
 		all, sig, what, discard := runClauseLimit(c, "all", vmLimitScale)
 		if discard {
